@@ -25,9 +25,10 @@ import (
 // ops:  spec(A)                       one more proposer block
 //       blob(A=height off, B=kind, C) one blob at start+off: 0 genuine header C, 1 genuine data C, 2 truncated
 //                                     genuine blob, 3 absurd length prefix, 4 other message type, 5 empty, 6 random
-//                                     bytes, 7 bulk of 95..154 small junk blobs (forces a second Get chunk)
+//                                     bytes, 7 bulk of 95..154 small junk blobs (forces a second Get chunk), 8 a genuine
+//                                     message re-encoded with one part missing or damaged
 //       script(A=height off,B=kind,C) one more fetch outcome for that height (not-found claim, future, listing
-//                                     error, error on Get chunk C%2; (C>>1)%5 picks the error: generic, wrapping
+//                                     error, error on Get chunk C%2; (C>>1)%6 picks the error: generic, a DA-side cancellation, wrapping
 //                                     context.DeadlineExceeded / the DA deadline error / ErrTxTimedOut, or a call that hangs until the fetch timeout)
 //       retrieve(A)                   make A%4 more DA heights exist, signal the loop, let it run until idle
 
@@ -62,6 +63,67 @@ func c09Junk(kind int64, c int64, genuine []byte) [][]byte {
 			b[i] = byte(r.IntN(256))
 		}
 		return [][]byte{b}
+	case 8:
+		// well-formed protobuf of the right message type with one part missing or damaged
+		v := (c / 2) % 8
+		bad := []byte{1, 2, 3}
+		var sd pb.SignedData
+		var sh pb.SignedHeader
+		if c%2 == 1 && proto.Unmarshal(genuine, &sd) == nil && sd.Data != nil && sd.Data.Metadata != nil && sd.Data.Metadata.ChainId != "" && len(sd.Data.ProtoReflect().GetUnknown()) == 0 {
+			switch v {
+			case 0:
+				sd.Data.Metadata = nil
+			case 1:
+				sd.Data = nil
+			case 2:
+				sd.Signer = nil
+			case 3:
+				sd.Signature = nil
+			case 4:
+				if sd.Signer != nil {
+					sd.Signer.PubKey = nil
+				}
+			case 5:
+				if sd.Signer != nil {
+					sd.Signer.PubKey = bad
+				}
+			case 6:
+				sd.Data.Txs = nil
+			default:
+				sd = pb.SignedData{Data: &pb.Data{Txs: [][]byte{[]byte("x")}}}
+			}
+			b, _ := proto.Marshal(&sd)
+			return [][]byte{b}
+		}
+		if proto.Unmarshal(genuine, &sh) == nil && sh.Header != nil && sh.Header.ChainId != "" && len(sh.Header.ProtoReflect().GetUnknown()) == 0 {
+			switch v {
+			case 0:
+				sh.Header = nil
+			case 1:
+				sh.Header.Version = nil // alone this is the same header when the version is zero, hence:
+				sh.Signature = bad
+			case 2:
+				sh.Signer = nil
+			case 3:
+				sh.Signature = nil
+			case 4:
+				if sh.Signer != nil {
+					sh.Signer.PubKey = nil
+				}
+			case 5:
+				if sh.Signer != nil {
+					sh.Signer.PubKey = bad
+				}
+			case 6:
+				sh.Header = &pb.Header{}
+			default:
+				sh.Header.LastHeaderHash = bad
+				sh.Header.DataHash = nil
+			}
+			b, _ := proto.Marshal(&sh)
+			return [][]byte{b}
+		}
+		return [][]byte{{0x0a, 0x03, 0x12, 0x01, 0x78}}
 	case 7:
 		n := 95 + int(c%60)
 		out := make([][]byte, n)
@@ -128,7 +190,7 @@ func c09Body(t *testing.T, s *sim.Scn, o *sim.Outcome) {
 				maxContent = h
 			}
 			bi := int(op.C) % len(blocks)
-			switch op.B % 8 {
+			switch op.B % 9 {
 			case 0:
 				da.Plant(h, blocks[bi].HBlob, "proposer")
 				genuine = append(genuine, c09Genuine{0, bi, h})
@@ -142,15 +204,15 @@ func c09Body(t *testing.T, s *sim.Scn, o *sim.Outcome) {
 				if op.C%2 == 1 && blocks[bi].DBlob != nil {
 					g = blocks[bi].DBlob
 				}
-				for _, j := range c09Junk(op.B%8, op.C, g) {
+				for _, j := range c09Junk(op.B%9, op.C, g) {
 					da.Plant(h, j, "third-party")
 				}
-				o.Count(fmt.Sprintf("junk-kind-%d", op.B%8), 1)
+				o.Count(fmt.Sprintf("junk-kind-%d", op.B%9), 1)
 			}
 		case "script":
 			h := first + uint64(op.A%8)
 			k := sim.ReadKind(1 + op.B%4)
-			da.ReadScript[h] = append(da.ReadScript[h], sim.ReadOutcome{Kind: k, Chunk: int(op.C % 2), Flavor: int(op.C>>1) % 5})
+			da.ReadScript[h] = append(da.ReadScript[h], sim.ReadOutcome{Kind: k, Chunk: int(op.C % 2), Flavor: int(op.C>>1) % 6})
 		}
 	}
 	callsSeen := 0
@@ -360,12 +422,15 @@ func c09Gen(r *rand.Rand, tier string) *sim.Scn {
 			if r.IntN(12) == 0 {
 				op.B = 7
 			}
+			if r.IntN(4) == 0 {
+				op.B = 8
+			}
 		}
 		s.Ops = append(s.Ops, op)
 	}
 	ns := r.IntN(12)
 	for i := 0; i < ns; i++ {
-		s.Ops = append(s.Ops, sim.Op{K: "script", A: r.Int64N(8), B: r.Int64N(4), C: r.Int64N(10)})
+		s.Ops = append(s.Ops, sim.Op{K: "script", A: r.Int64N(8), B: r.Int64N(4), C: r.Int64N(12)})
 	}
 	nr := 1 + r.IntN(12)
 	for i := 0; i < nr; i++ {
@@ -378,7 +443,7 @@ func TestC09(t *testing.T) {
 	sim.Main(t, &sim.Check{
 		ID:    "C09",
 		Level: "exploration",
-		Rule: "seeded DA contents over 8 heights from a seeded start height 0..20: genuine header/data blobs of a real proposer chain mixed with junk (truncated genuine blobs, absurd length prefixes, other message types, empty, random bytes, bulks of 95-154 blobs that force a second Get chunk), per-height outcome sequences (not-found claim on empty heights, from the future, listing error, error on Get chunk 0/1), three styles of reporting an empty height, seeded DA-height advances and signals; " +
+		Rule: "seeded DA contents over 8 heights from a seeded start height 0..20: genuine header/data blobs of a real proposer chain mixed with junk (truncated genuine blobs, absurd length prefixes, other message types, genuine messages re-encoded with one part missing or damaged (no metadata, no data, no signer, no signature, no/garbled public key, no header, no version, transactions only), empty, random bytes, bulks of 95-154 blobs that force a second Get chunk), per-height outcome sequences (not-found claim on empty heights, from the future, listing error, error on Get chunk 0/1), three styles of reporting an empty height, seeded DA-height advances and signals; " +
 			"oracle on the DA call log and on the events handed to sync. distinct = distinct scenario hash; non-trivial = at least one genuine blob, one signal and one read fault fired",
 		Assumptions: []string{"junk does not include self-consistent forgeries signed by a third party (whether those are admitted is C03's question)", "a DA layer never claims 'not found' for a height that holds blobs (such a script entry degrades to a listing error)"},
 		Components:  map[string]string{"block.RetrieveLoop / processNextDAHeaderAndData / handlePotentialHeader / handlePotentialData": "real", "types.RetrieveWithHelpers (chunking)": "real", "proposer chain and blobs": "real aggregator", "DA": "stub (SimDA)"},
